@@ -96,6 +96,28 @@ def merge_union_idx(states):
     return states
 
 
+def check_index_decoded(p, report, classes, rule):
+    """A class index selected over costs / probabilities is decoded to a
+    class label before predict returns it (shared with C09)."""
+    seen = set()
+    for ci in classes:
+        f = p.find_method(ci, "predict")
+        if f is None or is_abstract(f) or id(f.node) in seen:
+            continue
+        seen.add(id(f.node))
+        ent = f.qual
+        df = _IdxFlow(f.node).run()
+        n_src = sum(1 for n in ast.walk(f.node) if isinstance(n, ast.Assign) and is_index_source(n.value))
+        if df.bad:
+            for (ret, var, facts) in df.bad:
+                report.add(rule, ent, f"return of `{var}` holding a class index", f"{f.file}:{ret.lineno}", False,
+                           detail="a column index selected over costs/probabilities is returned without decoding to a "
+                                  f"class label on the path where: {describe(facts) or 'always'}")
+        else:
+            report.add(rule, ent, "class indices decoded before return", f"{f.file}:{f.node.lineno}", True,
+                       detail=f"{n_src} index source(s), all decoded on every path", nontrivial=n_src > 0)
+
+
 def run(p, report, tier):
     report.rule("R11.1", "in every predict of a project classifier a class *index* (result of rand_argmin/argmin/"
                 "argmax over costs or probabilities, choice over arange(len(classes_))) passes through "
@@ -116,23 +138,7 @@ def run(p, report, tier):
         raise AnalysisError(f"C11: only {len(classes)} classifier classes found")
     report.analysed["classes"] = [c.name for c in classes]
     # ---------------- R11.1
-    seen = set()
-    for ci in classes:
-        f = p.find_method(ci, "predict")
-        if f is None or is_abstract(f) or id(f.node) in seen:
-            continue
-        seen.add(id(f.node))
-        ent = f.qual
-        df = _IdxFlow(f.node).run()
-        n_src = sum(1 for n in ast.walk(f.node) if isinstance(n, ast.Assign) and is_index_source(n.value))
-        if df.bad:
-            for (ret, var, facts) in df.bad:
-                report.add("R11.1", ent, f"return of `{var}` holding a class index", f"{f.file}:{ret.lineno}", False,
-                           detail="a column index selected over costs/probabilities is returned without decoding to a "
-                                  f"class label on the path where: {describe(facts) or 'always'}")
-        else:
-            report.add("R11.1", ent, "class indices decoded before return", f"{f.file}:{f.node.lineno}", True,
-                       detail=f"{n_src} index source(s), all decoded on every path", nontrivial=n_src > 0)
+    check_index_decoded(p, report, classes, "R11.1")
     # ---------------- R11.2
     seen = set()
     for ci in classes:
